@@ -27,6 +27,16 @@ Proof.
   unfold dsa_recv. rewrite H. eexists. split; [reflexivity|]. simpl. auto.
 Qed.
 
+Lemma pc_no_finished prob n t b vs t' ee q :
+  probabilistic_change prob n t b vs = (t', ee) -> In (EvFinished n q) ee -> False.
+Proof.
+  unfold probabilistic_change. destruct (draw (ds_orc t)) as [kk o1].
+  destruct (kk <? prob).
+  - destruct (draw o1) as [x o2]. unfold dvalue_selection. intros H; inversion H; subst.
+    destruct (option_eqb Z.eqb _ _); intros Hin; [destruct Hin|destruct Hin as [Hin|[]]; discriminate].
+  - intros H; inversion H; subst. intros [].
+Qed.
+
 (* finished() is reported only when the cycle just completed reaches stop_cycle, and then the
    computation stops and sends nothing *)
 Lemma dsa_evaluate_finished_l d stop variant prob fovc n s s' o e k :
@@ -34,26 +44,19 @@ Lemma dsa_evaluate_finished_l d stop variant prob fovc n s s' o e k :
   stop <> 0 /\ stop <= k /\ k = ds_cycle s' /\ o = [] /\ ds_stopped s' = true.
 Proof.
   unfold evaluate_cycle. destruct (zlen (ds_cur s) =? zlen (nbrs d n)); [|intros H; inversion H; subst; intros []].
-  repeat match goal with |- context [let '(a, b) := ?X in _] => destruct X as [? ?] eqn:? end.
-  assert (Hc : forall t l (ee : list mev), (t, ee) = (d0, l) -> (forall q, In (EvFinished n q) ee -> False) -> forall q, In (EvFinished n q) l -> False)
-    by (intros t l ee Heq Hh; inversion Heq; subst; exact Hh).
-  assert (Hl : forall q, In (EvFinished n q) l0 -> False).
-  { clear Hc. revert Heqp0.
-    assert (Hp : forall t b vs t' ee, probabilistic_change prob n t b vs = (t', ee) -> forall q, In (EvFinished n q) ee -> False).
-    { intros t b vs t' ee. unfold probabilistic_change. destruct (draw (ds_orc t)) as [kk o1].
-      destruct (kk <? prob).
-      - destruct (draw o1) as [x o2]. unfold dvalue_selection. intros H; inversion H; subst.
-        intros q. destruct (option_eqb Z.eqb _ _); intros Hin; [destruct Hin|destruct Hin as [Hin|[]]; discriminate].
-      - intros H; inversion H; subst. intros q []. }
-    destruct (0 <? Z.abs _); [intros H; eapply Hp; eauto|].
-    destruct (variant =? 0); [intros H; inversion H; subst; intros q []|].
+  destruct (find_arg_optimal _ _ _) as [vals best].
+  match goal with |- context [let '(a, b) := ?X in _] => destruct X as [s1 e1] eqn:E1 end.
+  assert (Hl : forall q, In (EvFinished n q) e1 -> False).
+  { intros q. revert E1.
+    destruct (0 <? Z.abs _); [intros H; eapply pc_no_finished; eauto|].
+    destruct (variant =? 0); [intros H; inversion H; subst; intros []|].
     destruct (variant =? 1).
-    - destruct (exists_violated _ _ _ _); [intros H; eapply Hp; eauto|intros H; inversion H; subst; intros q []].
-    - intros H; eapply Hp; eauto. }
-  destruct (negb (stop =? 0) && (stop <=? ds_cycle d0 + 1)) eqn:E; intros H Hin; inversion H; subst; simpl.
+    - destruct (exists_violated _ _ _ _); [intros H; eapply pc_no_finished; eauto|intros H; inversion H; subst; intros []].
+    - intros H; eapply pc_no_finished; eauto. }
+  destruct (negb (stop =? 0) && (stop <=? ds_cycle s1 + 1)) eqn:E; intros H Hin; inversion H; subst; simpl.
   - apply in_app_or in Hin as [Hin|Hin]; [exfalso; eapply Hl; eauto|].
     destruct Hin as [Hin|[Hin|[]]]; inversion Hin; subst.
-    apply andb_true_iff in E as [E1 E2]. destruct (stop =? 0) eqn:E3; [discriminate|]. repeat split; lia.
+    apply andb_true_iff in E as [E2 E3]. destruct (stop =? 0) eqn:E4; [discriminate|]. repeat split; lia.
   - apply in_app_or in Hin as [Hin|Hin]; [exfalso; eapply Hl; eauto|].
     destruct Hin as [Hin|[]]. discriminate.
 Qed.
